@@ -92,9 +92,9 @@ CLAIMED = {
         "DESIGN.md 4/C16",
     ),
     "C12": (
-        "model-based testing of request sequences over hosts against per-cluster answer tables (rapid), with invocation logging per cluster",
+        "model-based testing of request sequences over hosts against per-cluster answer tables (rapid), with invocation logging per cluster; the real token-review authenticator inside the real handler chain in front of stub API servers with their own token tables",
         "Generated-input search: the real multi-cluster token-review authenticator and SAR authorizer over a stub ClientProvider with per-cluster fake kube clientsets whose answers differ for the same token / (user, attributes); sequences alternate hosts, toggle 'cannot be asked', stop+recreate clusters with new tables and re-home aliases, under cache TTLs {0, 50 ms, 10 min}; every result must be the own cluster's answer (the user name / reason carries the cluster id) and only the own cluster's API may be invoked. Exploration.",
-        "Trusted: rapid, client-go fake clientset, the stub provider. Non-retried review errors only.",
+        "Trusted: rapid, client-go fake clientset, the stub provider. Non-retried review errors only. In reviews-follow-routing a TLS handshake server name is emulated by setting req.TLS.ServerName on a loopback HTTP request (no real TLS listener).",
         "DESIGN.md 4/C12",
     ),
     "C14": (
